@@ -621,6 +621,65 @@ def _thread_result_returns(j, cj, off_b, off_l, call_t):
             thread(r2, pv)
 
 
+def _unique_def(j, l):
+    """the one statement / call that defines local l as a whole in the (raw) body j, or None"""
+    found = []
+    for blk in j['blocks']:
+        if blk.get('cleanup'):
+            continue
+        for st in blk['stmts']:
+            a = st.get('assign')
+            if a is not None and a.get('l') == l and not a.get('p'):
+                found.append(('stmt', st))
+        tm = blk['term']
+        if tm.get('k') == 'call' and (tm.get('dest') or {}).get('l') == l and not (tm.get('dest') or {}).get('p'):
+            found.append(('call', tm))
+    return found[0] if len(found) == 1 else None
+
+
+def _closure_call(j, facts, t):
+    """(closure body, [rvalue for each of its parameters]) for `FnOnce::call_once(c, (a, b))` when c is, through plain
+    moves, a closure built in this body; None otherwise"""
+    if len(t.get('args', [])) != 2:
+        return None
+    pl = (t['args'][0].get('move') or t['args'][0].get('copy')) if isinstance(t['args'][0], dict) else None
+    env_place, cl = None, None
+    for _ in range(8):
+        if pl is None or pl.get('p'):
+            return None
+        d = _unique_def(j, pl['l'])
+        if d is None or d[0] != 'stmt':
+            return None
+        rv = d[1]['rv']
+        if rv.get('k') == 'agg' and rv.get('agg') == 'closure':
+            env_place, cl = {'l': pl['l']}, rv
+            break
+        if rv.get('k') == 'use':
+            pl = (rv['op'].get('move') or rv['op'].get('copy')) if isinstance(rv.get('op'), dict) else None
+            continue
+        return None
+    if cl is None:
+        return None
+    cb = facts.bodies.get(cl.get('closure'))
+    if cb is None or any(x['term'].get('k') == 'call' and (x['term'].get('resolved') or x['term'].get('callee')) == cb.id for x in cb.blocks):
+        return None
+    n = cb.nargs - 1
+    ty1 = cb.local_ty(1) or ''
+    if ty1.startswith('&'):
+        rvs = [{'k': 'ref', 'mut': ty1.startswith('&mut') or ty1.startswith("&'") and ' mut ' in ty1[:24], 'place': env_place}]
+    else:
+        rvs = [{'k': 'use', 'op': {'move': env_place}}]
+    if n:
+        tp = (t['args'][1].get('move') or t['args'][1].get('copy')) if isinstance(t['args'][1], dict) else None
+        if tp is None or tp.get('p'):
+            return None
+        d = _unique_def(j, tp['l'])
+        if d is None or d[0] != 'stmt' or d[1]['rv'].get('k') != 'agg' or d[1]['rv'].get('agg') != 'tuple' or len(d[1]['rv'].get('ops', [])) != n:
+            return None
+        rvs += [{'k': 'use', 'op': o} for o in d[1]['rv']['ops']]
+    return cb, rvs
+
+
 def _generic_instance(facts, fn_id, substs):
     """{type parameter name: concrete type} for a call of the generic function fn_id with `substs` (positional, as rustc
     lists them: lifetimes and types together); only parameters instantiated with something that is not itself a bare
@@ -655,15 +714,24 @@ def inline_helpers(body, is_helper, depth=2, max_blocks=4000):
             continue
         cid = t.get('resolved') or t.get('callee')
         cb = facts.bodies.get(cid)
-        if cb is None or cb.id == body.id or cb.j.get('kind') == 'closure' or level[bi] >= depth:
-            continue
-        if len(cb.blocks) + len(j['blocks']) > max_blocks or not is_helper(cb):
-            continue
-        # no self-recursion in the callee
-        if any((x['term'].get('resolved') or x['term'].get('callee')) == cb.id for x in cb.blocks if x['term'].get('k') == 'call'):
-            continue
-        if len(t['args']) != cb.nargs:
-            continue
+        arg_rvs = None
+        if blk.get('inlined_from') and (t.get('callee') or '').endswith(('function::FnOnce::call_once', 'function::FnMut::call_mut', 'function::Fn::call')) \
+                and level[bi] < depth + 1:
+            # a spliced helper calling a closure it was handed (`NameKey::parse(name, || default)`): the closure is part
+            # of the caller too - splice its body, with its environment and its (tupled) arguments bound
+            cc = _closure_call(j, facts, t)
+            if cc is not None and len(cc[0].blocks) + len(j['blocks']) <= max_blocks:
+                cb, arg_rvs = cc
+        if arg_rvs is None:
+            if cb is None or cb.id == body.id or cb.j.get('kind') == 'closure' or level[bi] >= depth:
+                continue
+            if len(cb.blocks) + len(j['blocks']) > max_blocks or not is_helper(cb):
+                continue
+            # no self-recursion in the callee
+            if any((x['term'].get('resolved') or x['term'].get('callee')) == cb.id for x in cb.blocks if x['term'].get('k') == 'call'):
+                continue
+            if len(t['args']) != cb.nargs:
+                continue
         off_l, off_b = len(j['locals']), len(j['blocks'])
         off_p = len(j.setdefault('promoted', []))
         j['promoted'].extend(json.loads(json.dumps(cb.j.get('promoted', []))))
@@ -686,8 +754,12 @@ def inline_helpers(body, is_helper, depth=2, max_blocks=4000):
                     lc['ty'] = sub(lc['ty'])
         j['locals'].extend(new_locals)
         sp = t.get('span')
-        for i, a in enumerate(t['args']):
-            blk['stmts'].append({'assign': {'l': off_l + 1 + i}, 'rv': {'k': 'use', 'op': a}, 'span': sp})
+        if arg_rvs is not None:
+            for i, rv_ in enumerate(arg_rvs):
+                blk['stmts'].append({'assign': {'l': off_l + 1 + i}, 'rv': rv_, 'span': sp})
+        else:
+            for i, a in enumerate(t['args']):
+                blk['stmts'].append({'assign': {'l': off_l + 1 + i}, 'rv': {'k': 'use', 'op': a}, 'span': sp})
         for ci, cblk in enumerate(cj):
             ct = cblk['term']
             if ct.get('k') == 'return':
